@@ -317,6 +317,10 @@ func (ctx *RenderContext) GetVariable(name string) (interface{}, error) {
 }
 
 // hasAttribute reports whether obj has a member called name: a key of a map, an
+// maxPointerHops bounds how far a chain of pointers is followed to the value
+// it leads to (a pointer can point at itself)
+const maxPointerHops = 64
+
 // exported field (also one promoted from an embedded struct) or a method
 func hasAttribute(obj interface{}, name string) bool {
 	rv := reflect.ValueOf(obj)
@@ -331,8 +335,9 @@ func hasAttribute(obj interface{}, name string) bool {
 	if isAttrMethod(rv) {
 		return true
 	}
-	for rv.Kind() == reflect.Ptr || rv.Kind() == reflect.Interface {
-		if rv.IsNil() {
+	// (a pointer may lead back to itself: the chain is followed a bounded way)
+	for hops := 0; rv.Kind() == reflect.Ptr || rv.Kind() == reflect.Interface; hops++ {
+		if rv.IsNil() || hops >= maxPointerHops {
 			return false
 		}
 		rv = rv.Elem()
@@ -1554,8 +1559,8 @@ func (ctx *RenderContext) getItem(container, index interface{}) (interface{}, er
 		// Use reflection for other types (through pointers: x['k'] and x.k mean
 		// the same for a pointer to a map, too)
 		v := reflect.ValueOf(container)
-		for v.Kind() == reflect.Ptr {
-			if v.IsNil() {
+		for hops := 0; v.Kind() == reflect.Ptr; hops++ {
+			if v.IsNil() || hops >= maxPointerHops {
 				return nil, nil
 			}
 			v = v.Elem()
